@@ -16,7 +16,9 @@ ASSUMPTIONS = [
     "the originating request is identified by a caller supplied 'reply' tag found in the entry's request or in the first element of its redirect history",
 ]
 BEHAVIOURS = ["now", "delay", "fragments", "redirect-path", "redirect-host", "close-after", "redirect-nolocation", "status-204", "redirect-http",
-              "continue-first", "redirect-noport", "redirect-up-down"]
+              "continue-first", "redirect-noport", "redirect-up-down", "chunked-cap", "fragments-head", "redirect-encoded-query"]
+ENCQ = "next=%2Fa%3Fb%3D1%26c%3D2&t=x%2By"                      # a Location query whose values hold encoded ? = & +
+ENCQ_WANT = [("next", "/a?b=1&c=2"), ("t", "x+y")]
 STYLES = ["qargs+body", "dict", "query-in-path", "bare", "head"]       # how the caller queues a request
 CODES = [301, 302, 303, 307]
 
@@ -29,7 +31,7 @@ def RULE(tier):
     return ("real http.Client (plain, and TLS flavour with a fake TLS context) with 1-%d queued requests (distinct path and reply "
             "tag; each queued in one of 5 ways: request() with qargs and body, a raw request dict, the query inside the path, no query, a HEAD request), reconnectable or not, against a scripted server whose behaviour per request is enumerated completely: answer at once / "
             "after 2 idle rounds / in two fragments / redirect (301|302|303|307) to another path / to a second listener / redirect without a Location / 204 without a length / answer then "
-            "close / a bare 100 Continue first / redirect to an absolute Location without a port (listeners on 80 and 443) / redirect to https on the second listener, which redirects down to http:// / (TLS) redirect to an http:// location. Oracle: no request bytes reach the server while an earlier response is "
+            "close / answer with 'Transfer-Encoding: Chunked' / head in two segments cut inside the header block / a bare 100 Continue first / redirect to a Location whose query values hold encoded ? = & + / redirect to an absolute Location without a port (listeners on 80 and 443) / redirect to https on the second listener, which redirects down to http:// / (TLS) redirect to an http:// location. Oracle: no request bytes reach the server while an earlier response is "
             "unfinished; client.responses holds at most one entry per request in queue order with its tag and redirect history; "
             "https->http is refused without any connection to the plain listener, also on the second hop of a chain; exactly one entry per request when the connection "
             "stays usable." % (2 if tier == "quick" else 3))
@@ -142,6 +144,13 @@ class Peer:
             pending.append((0, ok[len(ok) // 2:], False))
         elif beh == "close-after":
             pending.append((0, ok, True))
+        elif beh == "chunked-cap":      # the coding name in another case (names of transfer codings are case-insensitive)
+            pending.append((0, b"HTTP/1.1 200 OK\r\nTransfer-Encoding: Chunked\r\n\r\n" + b"%x\r\n" % len(body) + body + b"\r\n0\r\n\r\n", False) if method != "HEAD" else (0, ok, False))
+        elif beh == "fragments-head":   # the head arrives in two segments cut inside the header block
+            ok2 = ok.replace(b"\r\n\r\n", b"\r\nX-Pad: 1\r\n\r\n", 1)      # the length line is whole before the cut, which falls inside the next line
+            cut = ok2.index(b"X-Pad") + 3
+            pending.append((0, ok2[:cut], False))
+            pending.append((0, ok2[cut:], False))
         elif beh == "continue-first":   # a bare interim response before the real one
             pending.append((0, b"HTTP/1.1 100 Continue\r\n\r\n" + ok, False))
         elif beh == "status-204":       # an answer that has no body by definition and declares no length
@@ -154,6 +163,8 @@ class Peer:
                 loc = "/moved%d" % idx
             elif beh == "redirect-host":
                 loc = "http%s://127.0.0.1:6102/moved%d" % ("s" if w.tls else "", idx)
+            elif beh == "redirect-encoded-query":
+                loc = "/moved%d?%s" % (idx, ENCQ)
             elif beh == "redirect-noport":       # absolute Location without a port: the scheme's default port, not the old one
                 loc = "http%s://127.0.0.1/np%d" % ("s" if w.tls else "", idx)
             elif beh == "redirect-up-down":      # first hop to https on the other listener, which then sends the client to plain http
@@ -273,17 +284,17 @@ def harness(job, ch):
             # (after the first hop of an up-down chain the client talks https to the other listener: later requests start from there,
             #  so a later Location with http:// is itself a refused downgrade - judged by the clauses below, not here)
             moved_up = any(behs.get(j) == "redirect-up-down" for j in range(i))
-            if b in ("redirect-path", "redirect-host", "redirect-noport") and i < len(tags) and tags[i] == want[i] and not moved_up:
+            if b in ("redirect-path", "redirect-host", "redirect-noport", "redirect-encoded-query") and i < len(tags) and tags[i] == want[i] and not moved_up:
                 reds = r.get("redirects") or []
                 if not reds or reds[0].get("status") != codes.get(i):
                     viol.append(("redirect-history-missing", "request %d was redirected (%s %s) but its entry has redirects=%r" % (i, b, codes.get(i), [x.get("status") for x in reds])))
                 elif b == "redirect-noport" and not any(p in (80, 443) and path == "/np%d" % i for p, path in w.seen):
                     viol.append(("redirect-wrong-port", "request %d was sent to a Location without a port; the default port never saw it (requests seen: %s)" % (i, w.seen)))
-                elif r.get("status") != 200 or bytes(r.get("body") or b"") not in (("echo:/moved%d" % i).encode(), ("echo:/np%d" % i).encode(), b""):
+                elif r.get("status") != 200:      # (bodies are not compared: entries alias the parser's buffer, see the plain-entry clause)
                     viol.append(("redirect-not-followed", "request %d redirect entry status %r body %r" % (i, r.get("status"), bytes(r.get("body") or b"")[:30])))
         # a plainly answered request yields a plain entry whatever happened to earlier requests on this client
         for i, r in enumerate(client.responses):
-            if behs.get(i) in ("now", "delay", "fragments", "close-after", "status-204", "continue-first") and i < len(tags) and tags[i] == want[i]:
+            if behs.get(i) in ("now", "delay", "fragments", "close-after", "status-204", "continue-first", "chunked-cap", "fragments-head") and i < len(tags) and tags[i] == want[i]:
                 # (the body is not compared: entries alias the parser's buffer, which the next response empties - outside C19)
                 if r.get("status") != (204 if behs.get(i) == "status-204" else 200) or r.get("errored") or (r.get("redirects") or []):
                     viol.append(("plain-response-entry:%s" % ("errored" if r.get("errored") else "redirects" if r.get("redirects") else "status"),
@@ -313,6 +324,10 @@ def harness(job, ch):
                     viol.append(("request-on-wire:%s" % ("body" if body != wantb else "query" if query != wantq else "method"),
                                  "request %d (queued as %s) went out as %s %s body %r, expected %s %s?%s body %r; styles %s" % (
                                      i, styles[i], meth, target, body, wm, path, wantq, wantb, styles)))
+            elif path.startswith("/moved") and path[6:].isdigit() and behs.get(int(path[6:])) == "redirect-encoded-query":
+                from urllib.parse import parse_qsl
+                if parse_qsl(query, keep_blank_values=True) != ENCQ_WANT:
+                    viol.append(("redirected-request-query:encoded", "Location %s?%s was requested as %s" % (path, ENCQ, target)))
             elif path.startswith("/moved"):
                 if query:
                     viol.append(("redirected-request-query", "redirect to %s was requested as %s (query not in the Location)" % (path, target)))
